@@ -25,8 +25,8 @@ import (
 
 func init() {
 	Register(&Rule{ID: "R-SCP-8", Props: []string{"C15"}, Floor: 10,
-		Doc:      "every read of a block construct's statement list (field Statements of the lib/parser node types that have one — If, ElseIf, Else, Case, CaseWhen, CaseElse, While, WhileInCursor, FunctionDeclaration, AggregateDeclaration — and of query.UserDefinedFunction) is followed through helpers (3 levels) to each call that can reach Processor.execute: the processor that executes the list is, on every path, built on a block scope freshly created for it (result of a scope creator derived from the pool, in the same function or handed down the call chain; for the function that reads the field itself also: handed in by every caller), never the enclosing processor; the fresh scope is released on every exit of the function that created it",
-		Controls: []string{"CtlBlockRunsInPlace", "CtlBlockHelperRunsInPlace"},
+		Doc:      "every read of a block construct's statement list (field Statements of the lib/parser node types that have one — If, ElseIf, Else, Case, CaseWhen, CaseElse, While, WhileInCursor, FunctionDeclaration, AggregateDeclaration — and of query.UserDefinedFunction) is followed through helpers (3 levels) to each call that can reach Processor.execute: the processor that executes the list is, on every path, built on a block scope freshly created for it (result of a scope creator derived from the pool — also as the scope field of a Processor literal —, in the same function or handed down the call chain; for the function that reads the field itself also: handed in by every caller), never the enclosing processor; the fresh scope is released on every exit of the function that created it",
+		Controls: []string{"CtlBlockRunsInPlace", "CtlBlockHelperRunsInPlace", "CtlBlockLiteralRunsInPlace"},
 		Run:      ruleScp8})
 }
 
@@ -363,5 +363,5 @@ func ruleScp8(c *Ctx) {
 			c.Ok(key, c.Pos(call), fmt.Sprintf("%d release site(s) cover every path to an exit", len(relAt)))
 		}
 	}
-	c.negControls(start, "okBlockRunsInChildViaHelper", "okBlockChildPerArm")
+	c.negControls(start, "okBlockRunsInChildViaHelper", "okBlockChildPerArm", "okBlockLiteralChild")
 }
